@@ -269,22 +269,38 @@ def replay_derived(fn_d, d, src, kind, fac):
     return bool(numpy.allclose(out, [2.0, 2.0, 100.49 + 12345.678, 100.49 + 12345.678]))
 
 
-def run(tier):
+def _chunk(ck, items):
     from _gettsim.config import RESOURCE_DIR
-    ck = common.Check("C10", tier)
     rs = ref.Resolver(RESOURCE_DIR / "parameters")
-    dates, st = date_classes(tier)
     seen, seen_d = set(), set()
     n = 0
-    for date in dates:
+    for date, with_derived in items:
         P, F = gt.env(date)
         rr = rounded_rules(F)
         for name, (f, key) in rr.items():
             n += 1
             check_rule(ck, rs, name, f, key, P, date, seen)
-        if tier == "thorough" or date in dates[:3]:
+        if with_derived:
             with_spec = [nm for nm, (f, key) in rr.items() if key in P and nm in P[key].get("rounding", {})]
             derived_not_rounded(ck, date, with_spec, seen_d)
+    ck.extra["rule_x_date"] = ck.extra.get("rule_x_date", 0) + n
+    ck.extra["distinct_wrappers"] = ck.extra.get("distinct_wrappers", 0) + len(seen)
+    ck.extra["derived_nodes"] = ck.extra.get("derived_nodes", 0) + len(seen_d)
+
+
+def run(tier):
+    from _gettsim.config import RESOURCE_DIR
+    ck = common.Check("C10", tier)
+    rs = ref.Resolver(RESOURCE_DIR / "parameters")
+    dates, st = date_classes(tier)
+    items = [(d, tier == "thorough" or d in dates[:3]) for d in dates]
+    chunks = [items[i::common.JOBS] for i in range(common.JOBS) if items[i::common.JOBS]] if len(items) > 1 else [items]
+    if len(chunks) == 1:
+        _chunk(ck, chunks[0])
+    else:
+        common.run_parallel(ck, _chunk, chunks)
+    n = ck.extra.get("rule_x_date", 0)
+    seen, seen_d = range(ck.extra.get("distinct_wrappers", 0)), range(ck.extra.get("derived_nodes", 0))
     ck.bounds = {"date_classes": len(dates), "rule_x_date": n, "distinct_wrappers": len(seen), "derived_nodes": len(seen_d),
                  "unrounded_value": "all reals", "group_sum_rows": 2,
                  "window": "quick: 12 fixed dates; thorough: one representative per distinct environment 1980..last entry+1y"}
